@@ -12,7 +12,7 @@ import os
 import vlib
 
 SRC = vlib.BASE_SRC + ["util/async_pipe.cpp"]
-INV = "CallbacksNeverOverlap Conservation BuffAccounting NoEmptyBlocks InOrder"
+INV = "CallbacksNeverOverlap Conservation BuffAccountingLoose NoEmptyBlocks InOrder"
 CFGS = [(1, 1, 1), (1, 2, 10), (2, 1, 2), (3, 2, 3), (50, 1, 1), (64, 2, 5), (1024, 2, 10)]
 
 
